@@ -11,7 +11,7 @@ sys.path.insert(0, os.path.join(VERIF, "tools"))
 import build_repo  # noqa: E402
 
 ALLOWED_AXIOMS = {"propext", "Classical.choice", "Quot.sound"}
-FORBIDDEN = re.compile(r"\bsorry\b|\badmit\b|^\s*axiom\s|native_decide|bv_decide|implemented_by|\bunsafe\s|maxHeartbeats\s+0|@\[extern")
+FORBIDDEN = re.compile(r"\bsorry\b|\badmit\b|^\s*axiom\s|native_decide|bv_decide|implemented_by|\bunsafe\s|maxHeartbeats\s+0|@\[extern|skipKernelTC|debug\.")
 
 
 class Lock:
@@ -234,6 +234,8 @@ def run_stream(exe, stream, seed, tier, tag, timeout=3000, env=None):
                     res["disagreements"].append(n)
                 res["n_disagree"] = res.get("n_disagree", 0) + 1
             lo = lo.strip()
+            if not lo and lr:
+                lo = "FAIL harness wrote no verdict for this case (missing endcase)"
             if lo and lo != "ok" and lo != "na":
                 if len(res["oracle_fails"]) < 20:
                     res["oracle_fails"].append((n, lo))
